@@ -3,8 +3,8 @@ import json
 import os
 
 HERE = os.path.dirname(os.path.abspath(__file__))
-RLIMIT_QUICK = 60
-RLIMIT_THOROUGH = 120
+RLIMIT_QUICK = 150
+RLIMIT_THOROUGH = 300
 
 
 def load_lock():
